@@ -19,6 +19,8 @@ class CollProperty:
         for _ in range(n_writers or rng.randint(1, 3)):
             shape = rng.choice(self.shapes)
             typed = shape in coll.TYPED and rng.random() < 0.4
+            if "TSD" in self.shapes and rng.random() < 0.12:
+                shape, typed = "TSD", True          # the authoring mutators of a dictionary (out[key], child outputs, erase, clear)
             sc["writers"].append(coll.gen_writer(rng, wid, shape, end, typed=typed))
             sc["probes"].append(dict(id=wid * 10 + 1, src=wid, until=end - 1))
             sc["cons"].append(dict(id=wid * 10 + 2, src=wid, every=1))
